@@ -56,6 +56,9 @@ def nilChainRecorded : Bool := true
 def encodeWalkStateless : Bool := true
 /-- every registry key the encoder writes is `rm[<the exact reflect.Type>]` (`keyOf ctx t`) -/
 def typeKeysByExactType : Bool := true
+/-- the struct case of the encoder writes one entry per own field of the struct under the field's
+    own name (`encFields` over the declared field list); an embedded struct is one field -/
+def structEncoderOwnFieldsOnly : Bool := true
 /-- every map entry is decoded into a key of its own (`placeKVs`) -/
 def mapKeyFreshPerEntry : Bool := true
 
